@@ -2,6 +2,7 @@
 //! copy of /repo/src made by lib/weave.py on every run (add-only: harness `mod` lines appended).
 #![allow(dead_code, unused_imports, unused_macros, unused_variables, unexpected_cfgs)]
 #![allow(clippy::all)]
+#![recursion_limit = "1024"]
 
 #[cfg(kani)]
 #[macro_use]
